@@ -90,6 +90,7 @@ template <typename T, typename E, int BITS> struct plain_k
     static long state_id(chk const&) { return 0; }
     template <typename R> static long recorded(R const&) { return 0; }
     template <typename R> static long derived(chk const&, R const&) { return 0; }
+    template <typename R> static std::vector<long long> coarse(R const&) { return std::vector<long long>(); }
     static T eval(hep::mc_point<T> const& p)
     {
         long long pos = ectx.has_pos ? reveal<T, BITS>::pos(p.point()[0]) : -1;
@@ -154,6 +155,13 @@ template <typename T, typename E, int BITS> struct vegas_k
         return "g:" + s;
     }
     template <typename R> static long recorded(R const& r) { return ids().id(grid(r.pdf())); }
+    // the grid the iteration was sampled with, at a resolution of 2^-12 (insensitive to the order of a reduction)
+    template <typename R> static std::vector<long long> coarse(R const& r)
+    {
+        std::vector<long long> q;
+        for (std::size_t b = 0; b <= r.pdf().bins(); ++b) q.push_back(mono_scaled(r.pdf().bin_left(0, b), 12));
+        return q;
+    }
     template <typename R> static long derived(chk const& c, R const& r) { return ids().id(grid(hep::vegas_refine_pdf(r.pdf(), c.alpha(), r.adjustment_data()))); }
     static T eval(hep::vegas_point<T> const& p)
     {
@@ -189,6 +197,12 @@ template <typename T, typename E, int BITS> struct mc_k
     static std::size_t per_call() { return 2; }
     static chk fresh(E const& e) { return hep::make_multi_channel_chkpt<T, E>(std::vector<T>{T(1), T(1), T(0), T(2)}, T(0.01), T(0.5), e); }
     template <typename R> static long recorded(R const& r) { return ids().id("w:" + hexvec(r.channel_weights())); }
+    template <typename R> static std::vector<long long> coarse(R const& r)
+    {
+        std::vector<long long> q;
+        for (T w : r.channel_weights()) q.push_back(mono_scaled(w, 12));
+        return q;
+    }
     template <typename R> static long derived(chk const& c, R const& r)
     {
         return ids().id("w:" + hexvec(hep::multi_channel_refine_weights(r.channel_weights(), r.adjustment_data(), c.min_weight(), c.beta())));
@@ -228,6 +242,77 @@ template <typename T, typename E, int BITS> struct mc_k
     {
         return hep::mpi_multi_channel(comm, hep::make_multi_channel_integrand<T>([](hep::multi_channel_point<T> const& p, hep::projector<T>& pr) { return eval_dist(p, pr); },
             1, map_t{c.channel_weights()[0] == T()}, 1, 4, hep::make_dist_params<T>(4, T(), T(1), "channels")), plan, c, cb);
+    }
+};
+// exactly one channel: the channel selection still consumes its random number
+template <typename T, typename E, int BITS> struct mc1c_k : mc_k<T, E, BITS>
+{
+    typedef typename mc_k<T, E, BITS>::chk chk;
+    static char const* name() { return "mc1"; }
+    static chk fresh(E const& e) { return hep::make_multi_channel_chkpt<T, E>(std::vector<T>{T(1)}, T(0.01), T(0.5), e); }
+    struct map1_t
+    {
+        T operator()(std::size_t, std::vector<T> const& r, std::vector<T>& co, std::vector<std::size_t> const&, std::vector<T>& de, hep::multi_channel_map) const
+        {
+            co[0] = r[0];
+            de[0] = T(0.5);
+            return T(1);
+        }
+    };
+    template <typename CB> static chk serial(chk const& c, std::vector<std::size_t> const& plan, CB cb)
+    {
+        return hep::multi_channel(hep::make_multi_channel_integrand<T>([](hep::multi_channel_point<T> const& p) { return mc_k<T, E, BITS>::eval(p); }, 1, map1_t(), 1, 1),
+            plan, c, cb);
+    }
+    template <typename CB> static chk parallel(MPI_Comm comm, chk const& c, std::vector<std::size_t> const& plan, CB cb)
+    {
+        return hep::mpi_multi_channel(comm, hep::make_multi_channel_integrand<T>([](hep::multi_channel_point<T> const& p) { return mc_k<T, E, BITS>::eval(p); },
+            1, map1_t(), 1, 1), plan, c, cb);
+    }
+};
+// more coordinates (3) than random numbers (1): the consumption follows the random numbers
+template <typename T, typename E, int BITS> struct mcmd_k : mc_k<T, E, BITS>
+{
+    typedef typename mc_k<T, E, BITS>::chk chk;
+    static char const* name() { return "mc"; }
+    struct mapmd_t
+    {
+        T operator()(std::size_t, std::vector<T> const& r, std::vector<T>& co, std::vector<std::size_t> const&, std::vector<T>& de, hep::multi_channel_map) const
+        {
+            co[0] = r[0]; co[1] = r[0]; co[2] = r[0];
+            de[0] = T(0.5); de[1] = T(1.5); de[2] = T(1); de[3] = T(1);
+            return T(1);
+        }
+    };
+    template <typename CB> static chk serial(chk const& c, std::vector<std::size_t> const& plan, CB cb)
+    {
+        return hep::multi_channel(hep::make_multi_channel_integrand<T>([](hep::multi_channel_point<T> const& p) { return mc_k<T, E, BITS>::eval(p); }, 1, mapmd_t(), 3, 4),
+            plan, c, cb);
+    }
+    template <typename CB> static chk parallel(MPI_Comm comm, chk const& c, std::vector<std::size_t> const& plan, CB cb)
+    {
+        return hep::mpi_multi_channel(comm, hep::make_multi_channel_integrand<T>([](hep::multi_channel_point<T> const& p) { return mc_k<T, E, BITS>::eval(p); },
+            1, mapmd_t(), 3, 4), plan, c, cb);
+    }
+};
+// VEGAS with alpha = 0 and an integrand that vanishes on the lower half: the grid still moves (empty bins are squeezed out), and the
+// MPI run must sample every iteration with the same grid as the serial run
+template <typename T, typename E, int BITS> struct vegas0_k : vegas_k<T, E, BITS>
+{
+    typedef typename vegas_k<T, E, BITS>::chk chk;
+    static chk fresh(E const& e) { return hep::make_vegas_chkpt<T, E>(8, T(), e); }
+    static T eval0(hep::vegas_point<T> const& p)
+    {
+        if (ectx.log) ev("Eval").i("rank", my_rank()).i("pos", -1).emit();
+        return p.point()[0] < T(0.5) ? T() : T(1 + (long) (p.bin()[0] % 3));
+    }
+    template <typename CB> static chk serial(chk const& c, std::vector<std::size_t> const& plan, CB cb)
+    {
+        return hep::vegas(hep::make_integrand<T>([](hep::vegas_point<T> const& p) { return eval0(p); }, 1), plan, c, cb);
+    }
+    template <typename CB> static chk parallel(MPI_Comm comm, chk const& c, std::vector<std::size_t> const& plan, CB cb)
+    {
+        return hep::mpi_vegas(comm, hep::make_integrand<T>([](hep::vegas_point<T> const& p) { return eval0(p); }, 1), plan, c, cb);
     }
 };
 // multi channel with a single enabled channel: the channel selection still consumes its random number
@@ -277,7 +362,7 @@ template <typename K, typename T, typename C> struct obs_cb
         ev(serial ? "SerialIter" : "Add").i("rank", serial ? -1 : my_rank()).i("n", (long long) c.results().size()).i("rid", ids().id("r:" + result_text<T>(r))).i("sid", ids().id("s:" + sum_text<T>(r)))
             .i("sumQ", mono_scaled(r.sum(), 6)).i("sumsqQ", mono_scaled(r.sum_of_squares(), 4)).i("calls", (long long) r.calls())
             .i("nz", (long long) r.non_zero_calls()).i("fin", (long long) r.finite_calls()).i("gen", gen_id(c.generator()))
-            .i("recorded", rec).i("derivedPrev", *prev_derived).emit();
+            .i("recorded", rec).i("derivedPrev", *prev_derived).a("stateQ", K::coarse(r)).emit();
         *prev_derived = K::derived(c, r);
         ++ectx.iter;
     }
@@ -377,6 +462,9 @@ template <typename T> static void family(rng& g, std::vector<int> const& worlds,
         one_run<plain_k<T, counter_engine<32>, 32>, T>("counter32", counter_engine<32>(s), true, w, make_plan(g, w), 0.0);
         one_run<mc_k<T, counter_engine<32>, 32>, T>("counter32", counter_engine<32>(s), true, w, make_plan(g, w), 0.0);
         one_run<mc1_k<T, counter_engine<64>, 64>, T>("counter64", counter_engine<64>(s), true, w, make_plan(g, w), 0.0);
+        one_run<mc1c_k<T, counter_engine<64>, 64>, T>("counter64", counter_engine<64>(s), true, w, make_plan(g, w), 0.0);
+        one_run<mcmd_k<T, counter_engine<64>, 64>, T>("counter64", counter_engine<64>(s), true, w, make_plan(g, w), 0.0);
+        one_run<vegas0_k<T, std::mt19937, 0>, T>("mt19937", std::mt19937(s), false, w, std::vector<std::size_t>{120, 90, 150}, 0.0);
         if (w >= 2)
         {
             // an iteration in which some ranks have no calls at all (and one in which a rank has a single call with value zero), followed
